@@ -17,7 +17,8 @@ EXPLANATION = (
     "two exceptions CPython's unpickler raises on a strict prefix), decided through the interpreter's own exception "
     "hierarchy -- or every writer of that file is atomic (temp path + os.replace).  R18.2: every consumer of "
     "read_data tolerates None before using the value.  R18.3: no other file written by the data-file writer is opened "
-    "for reading anywhere.  Which version survives a crash is not decided."
+    "for reading anywhere.  R18.4: the reader returns its list of loaded objects only under a non-emptiness test, so an "
+    "empty/truncated file yields None (what the consumers test for), never [].  Which version survives a crash is not decided."
 )
 ASSUMPTIONS = [
     "a strict prefix of a valid pickle stream makes pickle.load raise EOFError or pickle.UnpicklingError (CPython behaviour)",
@@ -245,9 +246,64 @@ def check(ctx, res) -> None:
                 f"path '{src}' is truncated in place by the writer and read back by {bad} outside any R18.1-checked deserialisation",
                 readers=[f.qualname for f, _ in readers])
     res.floor("R18.3", "data-file write sites", len(writes), 2)
+    _r184(ctx, res)
 
 
 def _load(t: ast.AST) -> ast.AST:
     """Copy of a Store target as a Load expression (for structural comparison)."""
     t2 = ast.parse(ast.unparse(t), mode="eval").body
     return t2
+
+
+def _r184(ctx, res) -> None:
+    """R18.4: when no complete object could be read (empty or truncated file) the reader answers None -- the value its
+    consumers test for -- never an empty container."""
+    idx = ctx.idx
+    rd = idx.need_func("rope.base.project._DataFiles.read_data")
+    cfg = CFG(rd.node)
+    acc = None
+    for n in walk_local(rd.node):
+        if isinstance(n, ast.Assign) and isinstance(n.value, ast.List) and not n.value.elts and isinstance(n.targets[0], ast.Name):
+            acc = n.targets[0].id
+    if acc is None:
+        res.undecided("R18.4", "read_data|empty", rd.where, "accumulator list of loaded objects not found")
+        return
+
+    def nonempty(t: ast.AST, pol: bool) -> bool:
+        """condition (with polarity) implies len(acc) >= 1"""
+        if isinstance(t, ast.Name) and t.id == acc:
+            return pol
+        if isinstance(t, ast.Compare) and len(t.ops) == 1 and isinstance(t.left, ast.Call) and call_name(t.left) == "len" \
+                and t.left.args and isinstance(t.left.args[0], ast.Name) and t.left.args[0].id == acc \
+                and isinstance(t.comparators[0], ast.Constant) and isinstance(t.comparators[0].value, int):
+            k, op = t.comparators[0].value, t.ops[0]
+            if pol:
+                return (isinstance(op, ast.Eq) and k >= 1) or (isinstance(op, ast.Gt) and k >= 0) or (isinstance(op, ast.GtE) and k >= 1)
+            return (isinstance(op, ast.Eq) and k == 0) or (isinstance(op, ast.Lt) and k <= 1) or (isinstance(op, ast.LtE) and k <= 0)
+        return False
+
+    bad = []
+    n = 0
+    for node in cfg.nodes:
+        if node.kind != "stmt" or not isinstance(node.ast, ast.Return) or node.ast.value is None:
+            continue
+        outer = [(t, p) for t, p in cfg.guards(node.id)]
+        # split conditional expressions into their arms
+        arms = [(node.ast.value, [])]
+        out = []
+        while arms:
+            v, conds = arms.pop()
+            if isinstance(v, ast.IfExp):
+                arms.append((v.body, conds + [(v.test, True)]))
+                arms.append((v.orelse, conds + [(v.test, False)]))
+            else:
+                out.append((v, conds))
+        for v, conds in out:
+            if isinstance(v, ast.Name) and v.id == acc:
+                n += 1
+                if not any(nonempty(t, p) for t, p in outer + conds):
+                    bad.append(node)
+    res.add("R18.4", "read_data|empty", not bad, rd.where,
+            f"the list of loaded objects is returned only when it is non-empty ({n} return arm(s)); otherwise the reader falls through to None" if not bad else
+            f"read_data can return the (possibly empty) list of loaded objects (line {bad[0].lineno}) without a test that it is non-empty: for an empty or "
+            "truncated data file it answers [] instead of None, the consumers' `is not None` tests pass, and opening the project raises on the empty value")
